@@ -115,7 +115,7 @@ inductive Res (α : Type) where
   | ok (a : α)
   | err (kind : String)
   | panic
-  deriving Repr
+  deriving Repr, DecidableEq
 
 def maxInt32 : Int := 2147483647
 
@@ -195,53 +195,64 @@ def gatewayEntry (o : Oracle) (i g : Nat) (v : Yaml) : Res Gateway :=
     | some _ => .err (loc2 i g "gw-not-string")
   | _ => .err (loc2 i g "gw-invalid")
 
+/-- the `mtu` block of `parseUnsafeRoutes` (optional; 0 = unset). -/
+def unsafeMtu (i : Nat) (m : List (String × Yaml)) : Res Int :=
+  match lookup "mtu" m with
+  | none => .ok 0
+  | some rMtu =>
+    match numField 64 rMtu with
+    | none => .err (loc i "mtu-not-int")
+    | some mtu => if mtu ≠ 0 ∧ mtu < 500 then .err (loc i "mtu-low") else .ok mtu
+
+/-- the `metric` block (optional, default 0). -/
+def unsafeMetric (i : Nat) (m : List (String × Yaml)) : Res Int :=
+  match numField 32 ((lookup "metric" m).getD (.int 0)) with
+  | none => .err (loc i "metric-not-int")
+  | some metric => if metric < 0 ∨ metric > maxInt32 then .err (loc i "metric-range") else .ok metric
+
+/-- the `switch via := rVia.(type)` block. -/
+def unsafeVia (o : Oracle) (i : Nat) (rVia : Yaml) : Res (List Gateway) :=
+  match rVia with
+  | .str s =>
+    match o.parseAddr s with
+    | none => .err (loc i "via-addr")
+    | some ip => .ok [{ addr := ip, weight := 1 }]
+  | .list l => entries (gatewayEntry o i) 1 l
+  | _ => .err (loc i "via-type")
+
+/-- the `install` block (optional, default true). -/
+def unsafeInstall (i : Nat) (m : List (String × Yaml)) : Res Bool :=
+  match lookup "install" m with
+  | none => .ok true
+  | some rInstall =>
+    match parseBool (fmtV rInstall) with
+    | none => .err (loc i "install-not-bool")
+    | some b => .ok b
+
+/-- One iteration of the loop of `parseUnsafeRoutes`, in source order: mtu, metric, via, route present,
+install, route parses, route outside every network. -/
 def unsafeEntry (o : Oracle) (networks : List Prefix) (i : Nat) (r : Yaml) : Res Route :=
   match r with
   | .map m =>
-    -- mtu (optional; 0 = unset)
-    let mtuR : Res Int :=
-      match lookup "mtu" m with
-      | none => .ok 0
-      | some rMtu =>
-        match numField 64 rMtu with
-        | none => .err (loc i "mtu-not-int")
-        | some mtu => if mtu ≠ 0 ∧ mtu < 500 then .err (loc i "mtu-low") else .ok mtu
-    match mtuR with
+    match unsafeMtu i m with
     | .err e => .err e
     | .panic => .panic
     | .ok mtu =>
-    -- metric (optional, default 0)
-    match numField 32 ((lookup "metric" m).getD (.int 0)) with
-    | none => .err (loc i "metric-not-int")
-    | some metric =>
-    if metric < 0 ∨ metric > maxInt32 then .err (loc i "metric-range") else
-    -- via
+    match unsafeMetric i m with
+    | .err e => .err e
+    | .panic => .panic
+    | .ok metric =>
     match lookup "via" m with
     | none => .err (loc i "via-missing")
     | some rVia =>
-    let viaR : Res (List Gateway) :=
-      match rVia with
-      | .str s =>
-        match o.parseAddr s with
-        | none => .err (loc i "via-addr")
-        | some ip => .ok [{ addr := ip, weight := 1 }]
-      | .list l => entries (gatewayEntry o i) 1 l
-      | _ => .err (loc i "via-type")
-    match viaR with
+    match unsafeVia o i rVia with
     | .err e => .err e
     | .panic => .panic
     | .ok gateways =>
     match lookup "route" m with
     | none => .err (loc i "route-missing")
     | some rRoute =>
-    let instR : Res Bool :=
-      match lookup "install" m with
-      | none => .ok true
-      | some rInstall =>
-        match parseBool (fmtV rInstall) with
-        | none => .err (loc i "install-not-bool")
-        | some b => .ok b
-    match instR with
+    match unsafeInstall i m with
     | .err e => .err e
     | .panic => .panic
     | .ok install =>
